@@ -43,13 +43,26 @@ def run(ctx):
                 # any disagreement between the database image and the specification on a trace is reported here
                 # when it concerns commitments; state-content disagreements belong to C10 but are still shown
                 if mm["what"] in C06_MISMATCH:
-                    vlib.report(ctx, {"kind": "trace-" + mm["what"]}, {"seed": seed, "steps": steps, "mismatch": mm, "trace": str(tr)})
+                    cause = zc.spend_at_trim_depth(tr)
+                    sig = {"kind": "trace-" + mm["what"]}
+                    if cause:
+                        sig = {"kind": "commitment-mismatch", "cause": "spend-at-trim-depth"}
+                    vlib.report(ctx, sig, {"seed": seed, "steps": steps, "mismatch": mm, "cause": cause, "trace": str(tr)})
                 else:
                     vlib.log("trace disagreement outside C06 (see C10):", mm)
             events += info["events"]; reexecs += info["reexecutions"]; fchecks += info["follower_checks"]
             if len(samples) < 3:
                 samples += zc.sample_events(tr, 2)
             shutil.rmtree(sub, ignore_errors=True)
+        # the TLC lead above, driven on the real node: spend a small unlocked output in exactly the block that trims it
+        sub = dbdir / "trimspend"; sub.mkdir()
+        tr, info = zc.run_chaindrv(ctx, drv, "c06-trimspend", ctx.seed, 0, sub, extra=["-trimspend", 1 if quick else 3, "-trimdepth", 4])
+        cov["design_leads"][0]["realised_on_real_node"] = info.get("trimspend_realised", 0)
+        ok, mm, t = zc.validate_trace(ctx, "c06-trimspend", tr)
+        if not ok:
+            cause = zc.spend_at_trim_depth(tr)
+            sig = {"kind": "commitment-mismatch", "cause": "spend-at-trim-depth"} if cause and mm["what"] in C06_MISMATCH else {"kind": "trace-" + mm["what"]}
+            vlib.report(ctx, sig, {"seed": ctx.seed, "mismatch": mm, "cause": cause, "cmd": "chaindrv random -steps 0 -trimspend 1 -trimdepth 4"})
         if reexecs == 0 or fchecks == 0:
             raise Broken("driver performed no re-executions / follower comparisons")
         cov.update(traces_validated_against_impl=validated, impl_trace_events=events, reexecutions=reexecs,
